@@ -604,3 +604,20 @@ Proof.
   intros E H. rewrite (result_is_tcp_reply_when_tc _ _ _ E), reuse_stale_answered by exact H.
   reflexivity.
 Qed.
+
+(** * A re-sent query is the same query *)
+
+Lemma resend_same_datagram q qid n d : In d (udp_sends q qid n) -> d = udp_wire_query q qid.
+Proof. intro H. apply repeat_spec in H. exact H. Qed.
+
+(** whichever datagram of the exchange a server answers (echoing the id of the
+    datagram it answers), the reply is the one the waiting exchange takes *)
+Lemma answer_to_any_send_accepted q qid n d r ds :
+  In d (udp_sends q qid n) -> qid < 65536 ->
+  get_id r = get_id d -> tr_dns_header_len <= len r -> len r <= udp_rx_buf ->
+  udp_receive qid (r :: ds) = Some r.
+Proof.
+  intros I Q G L1 L2. apply resend_same_datagram in I. subst d.
+  apply udp_receive_first; auto.
+  rewrite G. unfold udp_wire_query. apply put_id_get_id. exact Q.
+Qed.
